@@ -131,25 +131,36 @@ static inline bool ts_tree_cursor_child_iterator_previous(
     .position = self->position,
     .child_index = self->child_index,
     .structural_child_index = self->structural_child_index,
+    .descendant_index = self->descendant_index,
   };
   *visible = ts_subtree_visible(*child);
   bool extra = ts_subtree_extra(*child);
+  if (!extra && self->alias_sequence) {
+    *visible |= self->alias_sequence[self->structural_child_index];
+  }
 
   self->position = length_backtrack(self->position, ts_subtree_padding(*child));
   self->child_index--;
-
-  if (!extra && self->alias_sequence) {
-    *visible |= self->alias_sequence[self->structural_child_index];
-    if (self->structural_child_index > 0) {
-      self->structural_child_index--;
-    }
-  }
 
   // unsigned can underflow so compare it to child_count
   if (self->child_index < self->parent.ptr->child_count) {
     Subtree previous_child = ts_subtree_children(self->parent)[self->child_index];
     Length size = ts_subtree_size(previous_child);
     self->position = length_backtrack(self->position, size);
+
+    // The structural index counts the non-extra children before a child, and
+    // the descendant index counts the visible nodes before it.
+    bool previous_visible = ts_subtree_visible(previous_child);
+    if (!ts_subtree_extra(previous_child) && self->structural_child_index > 0) {
+      self->structural_child_index--;
+      if (self->alias_sequence) {
+        previous_visible |= self->alias_sequence[self->structural_child_index];
+      }
+    }
+    self->descendant_index -= ts_subtree_visible_descendant_count(previous_child);
+    if (previous_visible) {
+      self->descendant_index -= 1;
+    }
   }
 
   return true;
